@@ -9,11 +9,11 @@ cd $WT || exit 2
 git checkout -q -- src || exit 2
 [ -z "$(git status --porcelain -- src)" ] || { echo "worktree src not pristine"; exit 2; }
 git apply --check patch$N.diff || { echo "patch does not apply"; exit 2; }
-timeout 300 /venv/bin/python demo$N.py >/tmp/wt/demo.out 2>&1; D0=$?
+timeout 300 /venv/bin/python demo$N.py >$WT/.demo.out 2>&1; D0=$?
 git apply patch$N.diff
-timeout 600 /venv/bin/python -m pytest -q -p no:cacheprovider tests >/tmp/wt/test.out 2>&1; T1=$?
-TSUM=$(tail -1 /tmp/wt/test.out)
-timeout 300 /venv/bin/python demo$N.py >/tmp/wt/demo1.out 2>&1; D1=$?
+timeout 600 /venv/bin/python -m pytest -q -p no:cacheprovider tests >$WT/.test.out 2>&1; T1=$?
+TSUM=$(tail -1 $WT/.test.out)
+timeout 300 /venv/bin/python demo$N.py >$WT/.demo1.out 2>&1; D1=$?
 git checkout -q -- src
 echo "pristine demo exit=$D0; patched tests exit=$T1 ($TSUM); patched demo exit=$D1"
 if [ $D0 -ne 0 ] || [ $T1 -ne 0 ] || [ $D1 -eq 0 ]; then echo "REJECTED"; exit 1; fi
